@@ -155,15 +155,23 @@ def graph_flags(graph: dict) -> tuple[bool, bool]:
     self_loop = any(k in ps for k, ps in graph.items())
     color: dict = {}
 
-    def dfs(u) -> bool:
-        color[u] = 1
-        for v in graph.get(u, []):
-            if v == u:
-                continue
-            c = color.get(v, 0)
-            if c == 1 or (c == 0 and dfs(v)):
-                return True
-        color[u] = 2
+    def dfs(root) -> bool:
+        # iterative (the deep-chain corpus is far deeper than Python's recursion limit)
+        color[root] = 1
+        stack = [(root, iter([v for v in graph.get(root, []) if v != root]))]
+        while stack:
+            u, it = stack[-1]
+            for v in it:
+                c = color.get(v, 0)
+                if c == 1:
+                    return True
+                if c == 0:
+                    color[v] = 1
+                    stack.append((v, iter([w for w in graph.get(v, []) if w != v])))
+                    break
+            else:
+                color[u] = 2
+                stack.pop()
         return False
     cyc = any(color.get(k, 0) == 0 and dfs(k) for k in list(graph))
     return self_loop, cyc
@@ -290,6 +298,16 @@ def big_sweep(run: lib.Run) -> None:
                 break
 
 
+def deep_jobs():
+    """inheritance chains and one long cycle far deeper than any call stack budget: the closure is still the whole chain"""
+    for n in (300, 1100):
+        chain = {f"r{i:04d}": [f"r{i + 1:04d}"] for i in range(n)}
+        yield chain, f"deep-chain/{n}", [["r0000"], [f"r{n // 2:04d}"]]
+    n = 1100
+    cyc = {f"c{i:04d}": [f"c{(i + 1) % n:04d}"] for i in range(n)}
+    yield cyc, "deep-cycle/1100", [["c0007"]]
+
+
 def order_jobs():
     """sort-order corpus: every pair / triple of odd names, as given roles and as parents"""
     for k in (2, 3):
@@ -317,7 +335,7 @@ def chunks(it, size: int):
 
 def run_resolver_part(run: lib.Run, scale: int = 1) -> None:
     small = itertools.chain.from_iterable(sweep_jobs(n, 0, 1 << (n * n), VARIANTS, 3) for n in (1, 2, 3))
-    for jobs in chunks(itertools.chain(small, order_jobs(), random_jobs(run, scale)), 4000):
+    for jobs in chunks(itertools.chain(small, order_jobs(), deep_jobs(), random_jobs(run, scale)), 4000):
         merge(run, process_jobs(jobs, 120_000))
         if len(run.spec_failures) > 200 or run.extra.get("aborted_on_timeout"):
             return
@@ -362,7 +380,14 @@ class Flapping:
 
 
 # "+cache": the same request is evaluated twice on one Guard with a decision cache; what is judged is the SECOND evaluation
-KINDS = ["static", "static-async", "raise", "raise-async", "none", "static+cache", "static+flap+cache"]
+class Revoking:
+    """a resolver that legitimately answers with NO roles (e.g. it filters revoked grants): its answer is used as is"""
+
+    def expand(self, roles):
+        return []
+
+
+KINDS = ["static", "static-async", "raise", "raise-async", "none", "static+cache", "static+flap+cache", "answers-empty"]
 FLAVOURS = ["sync", "async", "async-collab-async", "sync-in-loop"]
 R = {"attr": "subject.roles"}
 
@@ -370,7 +395,8 @@ R = {"attr": "subject.roles"}
 def make_resolver(kind: str, graph: dict):
     return {"static": lambda: StaticRoleResolver(graph), "static-async": lambda: AsyncStatic(graph),
             "raise": Raising, "raise-async": AsyncRaising, "none": lambda: None,
-            "static+cache": lambda: StaticRoleResolver(graph), "static+flap+cache": lambda: Flapping(graph)}[kind]()
+            "static+cache": lambda: StaticRoleResolver(graph), "static+flap+cache": lambda: Flapping(graph),
+            "answers-empty": Revoking}[kind]()
 
 
 PREDS = {
@@ -481,6 +507,10 @@ def engine_spec(kind: str, own: list, seen_lists: list, allowed, tpl: tuple, clo
         if not is_str_list(seen) or not impl_ok:
             return "audit env.subject.roles is not the sorted closure of the subject's roles (Spec.Roles.isClosureOf)"
         expect = closure
+    elif kind == "answers-empty":
+        if seen != []:
+            return "the resolver answered with no roles but the audit record (and the conditions) show other roles"
+        expect = []
     else:
         if seen != own:
             return "audit env.subject.roles differs from the subject's own roles (resolver absent or failed)"
@@ -513,6 +543,8 @@ def run_engine_batch(run: lib.Run, audit: dict, cases: list) -> None:
             cfg["resolver"] = {"ok": a["model"]}
         elif kind.startswith("raise"):
             cfg["resolver"] = "raise"
+        elif kind == "answers-empty":
+            cfg["resolver"] = {"ok": []}
         req = make_req(roles)
         cmds2.append(real.guard_cmd(policy, req, cfg, consts, proto.build_oracle(policy, req, a["model"])))
     ans2 = proto.run_driver(cmds2)
